@@ -40,7 +40,7 @@ Expect(r, o) == IF ~WellFormed(r) \/ ~OptOK(o) THEN "PE" ELSE IF IsX(o) THEN "x"
 Case(r) ==
   LET wf == WellFormed(r)
       fe == IF wf THEN [k \in 1..Len(StrsPre) |-> FirstEnds(r, StrsPre[k], 0)] ELSE <<>>
-  IN [k |-> "T", al |-> AlphaSeq, n |-> MaxLen, t |-> Text(r), sig |-> Sig(r, 2), wf |-> wf,
+  IN [k |-> "T", al |-> AlphaSeq, n |-> MaxLen, t |-> Text(r), sig |-> Sig(r, 2), shape |-> Shape(r), wf |-> wf,
       runs |-> [i \in 1..Len(OptRuns) |-> <<OptRuns[i], Expect(r, OptRuns[i])>>],
       x |-> IF wf THEN Walk(r, MaxLen) ELSE <<>>,
       p |-> [k \in 1..Len(fe) |-> fe[k][1]],
